@@ -79,6 +79,8 @@ UNIVERSES = [
     ("key_match2", ["/b/:id", "/b/*", "/b/1", "/c/:x"], ["g1", "g2", "g3"], ["/b/1", "/b/2", "/c/1", "/b/:id", "/d", "g2"]),
     ("regex", ["u\\d+", "u1", "u[12]", "v.*"], ["g1", "g2", "g3"], ["u1", "u2", "u3", "v", "w", "g1"]),
     ("raising", ["/b/*", "/b/1"], ["g1", "g2"], ["/b/1", "/b/*", "g1"]),
+    ("raising_one", ["/b/*", "bad(", "/b/1", "/b/c/1"], ["g1", "g2"], ["/b/1", "/b/c/1", "/b/*", "bad(", "g1"]),
+    ("raising_one", ["/b/*", "bad(", "/b/1", "/b/c/1"], ["g1", "g2"], ["/b/1", "/b/c/1", "/b/*", "bad(", "g1"]),
     ("eq", ["a", "b"], ["g1", "g2"], ["a", "b", "g1"]),
     ("prefix_star", ["/b/*", "/b/1", "/b/2", "/c/1"], ["g1", "g2"], ["/b/1", "/b/2", "/c/1", "/b/*", "g1"]),
     ("prefix_star", ["/b/*", "/b/1", "/b/2", "/c/1"], ["g1", "g2"], ["/b/1", "/b/2", "/c/1", "/b/*", "g1"]),
